@@ -30,6 +30,8 @@ CHECKS["C18"] = {
   "note": TB + "acronym table regenerated from acronym.rs each run; pluralizer crate is a parameter of the variant-table theorem; "
           "Unicode case mapping outside ASCII not modelled (tokens are ASCII alphanumerics by construction of the tokenizer).",
 }
+FIX_COMMITS.append("07a4584 fix: an undone operation can be redone only once")
+FIX_COMMITS.append("c3d511b fix: refuse a plan whose id is already in the history before changing anything")
 FIX_COMMITS.append("7e5290d fix: plans with an empty replacement can be loaded again")
 FIX_COMMITS.append("d23f7ff fix: undo renames directories back shallowest first")
 FIX_COMMITS.append("36a47de fix: rewrite only the header lines of reverse patches")
